@@ -129,6 +129,11 @@ var EMLDictionary = []string{
 	"Content-Type: multipart/related; boundary=\"\"\r\n", "Content-Type: ;\r\n", "Content-Type: text/plain; charset\r\n", "Content-Type: text/plain; charset=\r\n",
 	"Content-Transfer-Encoding: base64\r\n", "Content-Transfer-Encoding: \r\n", "Content-ID: \r\n", "Content-ID: ;\r\n", "--", "--\r\n", "\r\n\r\n", "\n", "\r", ";", "=", "\"", "=?UTF-8?q?", "?=",
 	"filename=", "filename=\"", "filename=;", "boundary=", "boundary=\"", "name=", ":", ": ", "\x00", "\xff", "Date: \r\n", "From: \r\n", "To: ,\r\n", "Subject:\r\n",
+	// RFC 822 comments and stray parentheses in MIME header values, address groups, obsolete syntax
+	"Content-Type: text/plain; charset=us-ascii (Plain text)\r\n", "Content-Type: text/plain (a (nested) comment); charset=utf-8\r\n", "Content-Disposition: attachment; filename=\"holiday :) (1).jpg\"\r\n",
+	"Content-Type: application/pdf; name=\"notes ;-)(final).pdf\"\r\n", "Content-Transfer-Encoding: base64 (comment\r\n", "Content-ID: <a)b(c@d>\r\n", ")", "(", ")(", "()", " (", ") ",
+	"From: Nightly Monitor Robot:;\r\n", "To: undisclosed-recipients:;\r\n", "To: group: a@b.example, c@d.example;\r\n", "Cc: \"A Group\":;\r\n", "From: a@b.example, c@d.example\r\n",
+	"Content-Type: text/plain; charset*=utf-8''x\r\n", "Content-Disposition: attachment; filename*0=\"a\"; filename*1=\"b\"\r\n", "Content-Type: multipart/mixed; boundary=\"a b\"\r\n",
 }
 
 var emlParamRe = regexp.MustCompile(`(?i)(filename|name|boundary|charset)=("[^"\r\n]*"|[^;\r\n]*)`)
@@ -143,7 +148,7 @@ func MutateEML(t *rapid.T, doc string, i int) string {
 			return doc
 		}
 		loc := locs[rapid.IntRange(0, len(locs)-1).Draw(t, label+"-which")]
-		val := rapid.SampledFrom([]string{"", "\"", "x", "\"x", "x\"", "\"\"", "\"a;b\"", ";", "=", "\"" + strings.Repeat("y", 300) + "\"", "\"=?UTF-8?q?broken\"", " ", "\"\r\n\""}).Draw(t, label+"-val")
+		val := rapid.SampledFrom([]string{"", "\"", "x", "\"x", "x\"", "\"\"", "\"a;b\"", ";", "=", "\"" + strings.Repeat("y", 300) + "\"", "\"=?UTF-8?q?broken\"", " ", "\"\r\n\"", "\"x :) (1).jpg\"", "x)(y", "(c) x", "x (c", ")"}).Draw(t, label+"-val")
 		return doc[:loc[4]] + val + doc[loc[5]:]
 	case 2: // truncate
 		if len(doc) == 0 {
